@@ -607,7 +607,9 @@ def _find_views(
         view_classifier = IViewClassifier
     registered = registry.adapters.registered
     cache = registry._view_lookup_cache
-    views = cache.get((request_iface, context_iface, view_name))
+    views = cache.get(
+        (request_iface, context_iface, view_name, view_classifier, view_types)
+    )
     if views is None:
         views = []
         for req_type, ctx_type in itertools.product(
@@ -628,7 +630,15 @@ def _find_views(
             # anyway. downside: misses will almost always consume more CPU than
             # hits in steady state.
             with registry._lock:
-                cache[(request_iface, context_iface, view_name)] = views
+                cache[
+                    (
+                        request_iface,
+                        context_iface,
+                        view_name,
+                        view_classifier,
+                        view_types,
+                    )
+                ] = views
 
     return views
 
